@@ -68,8 +68,8 @@ pub const WELL_FORMED_NOTABLE: &[&[u8]] = &[
     &[0xf0, 0x90, 0x80, 0x80], // U+10000 (smallest 4-byte)
 ];
 
-pub const N_LEN_PROFILES: usize = 5;
-pub const LEN_PROFILE_NAMES: [&str; N_LEN_PROFILES] = ["utf8", "utf16-bytes", "fixed-1", "fixed-4", "pseudo-random-0..6"];
+pub const N_LEN_PROFILES: usize = 6;
+pub const LEN_PROFILE_NAMES: [&str; N_LEN_PROFILES] = ["utf8", "utf16-bytes", "fixed-1", "fixed-4", "pseudo-random-0..6", "one-GiB-per-character"];
 
 /// Byte length reported for character `c` at index `idx` under a length profile.
 #[inline]
@@ -79,6 +79,8 @@ pub fn len_of(profile: usize, c: char, idx: usize, salt: u64) -> u32 {
         1 => 2 * c.len_utf16() as u32,
         2 => 1,
         3 => 4,
+        // offsets leave the 32-bit range after four characters (an offset kept in a narrower integer shows)
+        5 => 0x4000_0000,
         _ => {
             let mut x = (c as u64).wrapping_mul(0x9e37_79b9_7f4a_7c15) ^ (idx as u64).wrapping_mul(0xbf58_476d_1ce4_e5b9) ^ salt;
             x ^= x >> 31;
